@@ -239,7 +239,7 @@ func runC13(r *Run) {
 	o := scenOpts{
 		kinds: []string{"queue", "queue", "deadline", "deadline", "blocking", "lifo-ctor", "fifo-ctor", "pool"}, strategies: []string{"simple", "precise"},
 		maxClients: 4, arrivals: []time.Duration{0, ms, 2 * ms}, holds: []time.Duration{0, ms},
-		qTimeouts: []time.Duration{1, ms, 2 * ms, time.Hour, 0}, bTimeouts: []time.Duration{0, time.Hour},
+		qTimeouts: []time.Duration{1, ms, 2 * ms, time.Hour, 0, -1, -time.Second}, bTimeouts: []time.Duration{0, time.Hour},
 		deadlines: []time.Duration{0, ms, 2 * ms, 5 * time.Second, -ms, DeadlineZeroTime},
 		cancelPct: 50, cancelTimes: []time.Duration{0, ms, 2 * ms, 3 * ms},
 		backlogs: []int{10}, limits: []int{1, 2}, relTimes: []time.Duration{ms, 2 * ms, 3 * ms, 2*ms - 1, 2*ms + 1},
@@ -335,10 +335,13 @@ func c13End(r *Run, sc *scen, variantB, isQueue, isBlocking bool) func() {
 			switch {
 			case isQueue:
 				te := cfg.Timeout
-				if te == 0 {
-					te = time.Second
+				if te == 0 || (te < 0 && (cfg.Kind == "pool" || cfg.Kind == "fixedpool")) {
+					te = time.Second // documented default; the pools clamp a negative timeout to 0 first
 				}
-				bound = arrive + int64(te)
+				if te > 0 {
+					bound = arrive + int64(te)
+				} // a negative backlog timeout is the documented way to wait without a timeout
+
 			case cfg.Kind == "deadline":
 				d := int64(cfg.Deadline) // creation is virtual instant 0
 				if d < arrive {
